@@ -362,7 +362,9 @@ func run(c *eng.Ctx) {
 	l := mkLayout(c)
 	defer func() {
 		n := l.total
-		runSameRequestTwice(c, func() (int, bool) { i := n; n++; return i, c.Mine(i) })
+		alloc := func() (int, bool) { i := n; n++; return i, c.Mine(i) }
+		runSameRequestTwice(c, alloc)
+		RunNestedInstall(c, "C16", alloc)
 	}()
 	for idx := 0; idx < l.total; idx++ {
 		if !c.Mine(idx) {
